@@ -611,13 +611,20 @@ pub fn run(tier: Tier, seed: u64, replay: Option<&std::path::Path>) -> i32 {
         tier,
         seed,
         "exploration",
-        "texts: every .wac file under /repo with the packages of its fixture directory, mutated by 0..3 byte/substring mutations (truncate, set byte, flip bit, insert from a 50-entry token/code-point pool, delete, duplicate) and paired with its packages as given / missing / rotated among keys / one corrupted; grammar-generated documents with 0..3 such mutations; arbitrary Unicode strings; package byte strings: fixture packages, 16 shaped WAT components (nested instances/components, core modules incl. GC/ref types, values, resources, async, future/stream), the two WASI dummies, each with 0..3 byte mutations, plus random bytes with and without a component header; a nesting ladder (10 shapes x depths 10..100000) run in a supervised worker process on an 8 MiB stack. Oracle: every stage returns (panic caught and attributed to its site; abort seen in the wait status); every span of the tree and of every diagnostic label lies inside the source on char boundaries; miette renders every diagnostic. Non-trivial = at least one statement parsed, or a mutated (near-valid) input, or bytes with a wasm header, or ladder depth >= 100. Distinct by JSON hash.",
+        "texts: every .wac file under /repo with the packages of its fixture directory, mutated by 0..3 byte/substring mutations (truncate, set byte, flip bit, insert from a 50-entry token/code-point pool, delete, duplicate) and paired with its packages as given / missing / rotated among keys / one corrupted; grammar-generated documents with 0..3 such mutations; arbitrary Unicode strings; programs of C04's semantic generator (and its single-fault variants) with their generated libraries; package byte strings: fixture packages, 16 shaped WAT components (nested instances/components, core modules incl. GC/ref types, values, resources, async, future/stream), the two WASI dummies, each with 0..3 byte mutations, plus random bytes with and without a component header; a nesting ladder (10 shapes x depths 10..100000) run in a supervised worker process on an 8 MiB stack. Oracle: every stage returns (panic caught and attributed to its site; abort seen in the wait status); every span of the tree and of every diagnostic label lies inside the source on char boundaries; miette renders every diagnostic. Non-trivial = at least one statement parsed, or a mutated (near-valid) input, or bytes with a wasm header, or ladder depth >= 100. Distinct by JSON hash.",
     );
     run.assume("termination is not decided: a hung worker would be reported as inconclusive (exit 2), never as a violation");
     run.assume("stack exhaustion is judged for the harness's release profile and an 8 MiB stack (what the CLI main thread has)");
     if let Some(p) = replay {
         let text = std::fs::read_to_string(p).unwrap_or_default();
-        if text.contains("\"pkg_mode\"") {
+        if text.contains("\"choices\"") {
+            run.replay_case::<crate::props::c04::Case, _>(p, |c| {
+                let (text, pkgs) = crate::props::c04::document_and_packages(c);
+                let mut st = Stages::default();
+                let r = front_end(&text, &pkgs, &mut st);
+                outcome_of(&text, r, &st, true, vec!["semantic-program".into()])
+            });
+        } else if text.contains("\"pkg_mode\"") {
             run.replay_case::<FixtureCase, _>(p, check_fixture);
         } else if text.contains("\"base\"") {
             run.replay_case::<SynMutCase, _>(p, check_syn);
@@ -731,6 +738,24 @@ pub fn run(tier: Tier, seed: u64, replay: Option<&std::path::Path>) -> i32 {
     );
     run.explore(4, 16, n / 16, || (any::<u16>(), proptest::collection::vec(bytemut_strategy(), 1..4)).prop_map(|(pool, muts)| BytesCase { pool, muts }), check_bytes);
     run.explore(5, 16, n / 64, || (proptest::collection::vec(any::<u8>(), 0..200), any::<bool>()).prop_map(|(bytes, component_header)| RandomBytesCase { bytes, component_header }), check_random_bytes);
+
+    // resolvable programs over generated libraries (C04's semantic generator, incl. its single-fault variants)
+    run.explore(
+        6,
+        16,
+        n / 16,
+        || (crate::props::c04::case_strategy(), 0u16..12, any::<u16>()).prop_map(|(mut c, f, at)| {
+            c.fault = f;
+            c.fault_at = at;
+            c
+        }),
+        |c: &crate::props::c04::Case| {
+            let (text, pkgs) = crate::props::c04::document_and_packages(c);
+            let mut st = Stages::default();
+            let r = front_end(&text, &pkgs, &mut st);
+            outcome_of(&text, r, &st, true, vec!["semantic-program".into()])
+        },
+    );
 
     // depth ladder
     let depths: &[usize] = if tier == Tier::Quick { &[10, 100, 1000, 10_000, 100_000] } else { &[10, 100, 1000, 3000, 10_000, 30_000, 100_000, 1_000_000] };
